@@ -2,7 +2,8 @@
 From Coq Require Import List NArith.
 From TG.Gen Require Import GenTokens GenGrammar GenGrammarCert.
 From TG.Model Require Import Chars Lexer Prep Tree ParserPrims GInterp.
-From TG.Proofs Require Import LexBasics ParserTile GTile LookProg ParserTop.
+From TG.Model Require Import ParserMonad.
+From TG.Proofs Require Import LexBasics ParserTile GTile LookProg ParserTop GenParserEq ParserSource.
 Import ListNotations.
 Open Scope N_scope.
 
@@ -79,3 +80,24 @@ Example C01_nonvacuous :
   exists t errs st, parse_with 100 grammar_prog grammar_entry C01_example_text = ParseOk t errs st
                     /\ cur st = T_Eof /\ List.length (leaves t) = 11%nat /\ List.length errs = 2%nat.
 Proof. vm_compute. do 3 eexists. repeat split. Qed.
+
+(** * The tie to the source by TRANSLATION + PROOF (in addition to the differential runs)
+    [gparse_with] (proofs/GenParserEq.v, builder lexprep) runs a grammar program over the renderings of parser.rs,
+    preprocessor.rs and lexer.rs that tools/translate/{t_parser,t_prep,t_lexer}.py regenerate from the CURRENT sources
+    on every run (gen/GenParser.v over gen/GenPrep.v over gen/GenLexer.v).  For EVERY program, text and fuel it
+    computes exactly what the hand model [parse_with] (model/ParserPrims.v, Prep.v, Lexer.v) computes: any semantic edit
+    of one of the three files changes a generated file and breaks this obligation for all inputs. *)
+Theorem C01_prims_are_source : forall (fuel : nat) (p : prog) (entry : nat) (txt : text),
+  gparse_with fuel p entry txt = parse_view (parse_with fuel p entry txt).
+Proof. exact gparse_with_eq. Qed.
+Check C01_prims_are_source : forall (fuel : nat) (p : prog) (entry : nat) (txt : text),
+  gparse_with fuel p entry txt = parse_view (parse_with fuel p entry txt).
+Print Assumptions C01_prims_are_source.
+
+(** hence C01 for the source rendering itself *)
+Theorem C01_lossless_source : forall (fuel : nat) (txt : text) t es,
+  gparse_with fuel grammar_prog grammar_entry txt = GParseOk t es -> C01_lossless_stmt txt t.
+Proof. exact source_lossless. Qed.
+Check C01_lossless_source : forall (fuel : nat) (txt : text) t es,
+  gparse_with fuel grammar_prog grammar_entry txt = GParseOk t es -> C01_lossless_stmt txt t.
+Print Assumptions C01_lossless_source.
